@@ -42,6 +42,8 @@ var atoms = []atom{
 	{"1", "push"}, {"2", "push"}, {"pop", "op"}, {"add", "op"}, {"dup", "op"},
 	{"exit", "exit"}, {"stop", "stop"}, {"v", "var"}, {"f", "call"},
 	{"/v 8 def", "rebind"}, {"/f {20} def", "rebind"}, {"/k", "push"}, {"count", "op"},
+	// rebinding without def: the value stored under a name changes through put
+	{"currentdict /v 9 put", "rebind-put"}, {"userdict /f {30} put", "rebind-put"},
 }
 
 // a construct is text with %s slots for bodies
@@ -60,7 +62,7 @@ var constructs = []construct{
 	{[]string{"2 -1 1 {", "} for"}, "for"},
 	{[]string{"1 1 0 {", "} for"}, "for"},
 	{[]string{"[5 6] {", "} forall"}, "forall"},
-	{[]string{"(ab) {", "} forall"}, "forall"},
+	{[]string{"(a\xe9) {", "} forall"}, "forall"}, // a byte >= 0x80: strings are byte sequences
 	{[]string{"{", "} loop"}, "loop"},
 	{[]string{"2 {", "} repeat"}, "repeat"},
 	{[]string{"0 {", "} repeat"}, "repeat"},
@@ -307,6 +309,10 @@ func dictstackFamily(budget time.Duration) mc.Family {
 		"/w 5 def /p {w} bind def /w 6 def p",
 		"2 dict begin /add {mul} def /p {add} bind def end 5 3 p",
 		"/p {1 {2 {add} exec} exec} bind def /add {sub} def p",
+		"/x 1 def x pop currentdict /x 2 put x", "/x 1 def x userdict /x 2 put x", "userdict /add {sub} put 5 3 add",
+		"/p {x} def /x 1 def p userdict /x 2 put p", "/n 3 def {n 0 eq {exit} if userdict /n n 1 sub put 7} loop",
+		"2 dict begin /x 1 def x currentdict /x 5 put x end", "/x 1 def 2 dict begin x currentdict /x 5 put x end x",
+		"/d 2 dict def d begin /x 1 def x end d /x 9 put d begin x end", "/x 1 def x << /x 3 >> userdict copy pop x",
 		"{exit} exec 5", "5 {stop} exec 6", "{1 exit 2} loop 3", "{{exit} loop 4 exit} loop 5",
 		"1 1 3 {dup 2 eq {exit} if} for 9", "[1 2 3] {dup 2 eq {exit} if} forall 9", "3 {1 exit 2} repeat 9",
 		"3 {1 stop 2} repeat 9", "{stop} loop 9", "1 1 3 {stop} for 9", "exit", "stop 5", "1 {exit} if", "true {exit} if 5",
